@@ -94,7 +94,14 @@ int wrapped_main(int argc, char *argv[])
       /* argv[0] can be NULL, you can achieve this with exec(). */
       progname = "bbcbasic_to_text";
     }
-  assert(set_dialect(default_dialect_name, &dialect)); /* set the default */
+  /* Set the default.  This call has a side effect we need, so it must
+   * not live inside assert(), which is compiled out by -DNDEBUG. */
+  if (!set_dialect(default_dialect_name, &dialect))
+    {
+      fprintf(stderr, "The default BASIC dialect '%s' is unknown.  This is a bug.\n",
+	      default_dialect_name);
+      return 1;
+    }
   int opt;
   while ((opt=getopt_long(argc, argv, "+d:D:l:", opts, &longindex)) != -1)
     {
